@@ -78,7 +78,7 @@ func runC15(c *core.Ctx) {
 	}
 	defer os.RemoveAll(base)
 
-	sem := make(chan struct{}, 12)
+	sem := make(chan struct{}, c.Pick(12, 16))
 	// violations seen by the concurrent part are filed after the replay's (whose records are
 	// deterministic action sequences), so that the replay's record is the one kept per key
 	var late []core.Violation
@@ -288,12 +288,12 @@ func runC15(c *core.Ctx) {
 				}
 			}
 			// all jobs of all graphs fit into one wave of child processes
-			parts := (ng + c.Pick(1400, 27000) - 1) / c.Pick(1400, 27000)
+			parts := (ng + c.Pick(1400, 22000) - 1) / c.Pick(1400, 22000)
 			if parts < 1 {
 				parts = 1
 			}
-			if parts > c.Pick(5, 6) {
-				parts = c.Pick(5, 6)
+			if parts > c.Pick(5, 8) {
+				parts = c.Pick(5, 8)
 			}
 			mu.Lock()
 			totalGroups += ng
@@ -304,7 +304,7 @@ func runC15(c *core.Ctx) {
 			for p := 0; p < parts; p++ {
 				nJobs++
 				jobs = append(jobs, replayJob{Kind: "replay", Graph: file, Config: cf, Inst: int(c.Seed) + ci*parts + p, Part: p, Parts: parts,
-					Walks: c.Pick(25, 400), WalkLen: c.Pick(25, 40), MaxSteps: 60, Seconds: c.Pick(60, 600),
+					Walks: c.Pick(25, 400), WalkLen: c.Pick(25, 40), MaxSteps: 60, Seconds: c.Pick(60, 720),
 					Dir: filepath.Join(base, fmt.Sprintf("job%d_%d", ci, p))})
 			}
 			if ci == len(configs)-1 {
@@ -546,8 +546,6 @@ CHECK_DEADLOCK FALSE
 		switch {
 		case feeDefect && lowFeeDepositSeen(defs, tr[:upTo]):
 			violate("rejected-tx-mutates-check-state/utxo-fee", "concurrent run: the specification cannot follow the trace after the state check of a low-fee account->confidential transaction (a direct probe shows that such a refusal moves the speculative nonce): "+ev, rec)
-		case e.E == "add" && !e.Ok && e.T > 0 && defs[e.T-1].K == "dep" && !defs[e.T-1].Fee:
-			violate("rejected-tx-mutates-check-state/utxo-fee", "concurrent run: the specification cannot follow the refusal of a low-fee account->confidential transaction (sizes / speculative nonce differ): "+ev, rec)
 		case e.E == "add":
 			from := upTo - 8
 			if from < 0 {
